@@ -182,7 +182,9 @@ func genC18(verifSeed int64, tier string, idx int) *core.Scenario {
 						}
 					}
 				}
-				switch r.Intn(5) {
+				switch r.Intn(6) {
+				case 5:
+					op.F = "" // WithFormat("") is an option like any other
 				case 0, 1:
 					op.F = c18RealFormats[r.Intn(3)]
 				case 2:
